@@ -2478,6 +2478,17 @@ impl StorageEngine {
                         crate::verif::yield_point(crate::verif::site::SWEEP_COLLECTED, 0, expired_keys.len() as u64);
                         let mut shard_guard = shard.write().unwrap();
                         for key in expired_keys {
+                            // Re-check under the write lock: since the scan (or since the index entry
+                            // was recorded) the key may have been overwritten, persisted, renamed over
+                            // or given a later deadline. Only the stored deadline decides.
+                            let stored_deadline = shard_guard.data.get(&key).and_then(|sv| sv.metadata.expires_at);
+                            if stored_deadline.map_or(true, |deadline| deadline > now) {
+                                match stored_deadline {
+                                    Some(deadline) => { shard_guard.expiring_keys.insert(key.clone(), deadline); }
+                                    None => { shard_guard.expiring_keys.remove(&key); }
+                                }
+                                continue;
+                            }
                             if let Some(stored_value) = shard_guard.data.remove(&key) {
                                 shard_guard.expiring_keys.remove(&key);
                                 
